@@ -276,7 +276,12 @@ class SD[_U: (Copy, Drop), _x: _U]:
         }
 
 
-def expected(params, inputs, output, inst):
+def comptime_of(params):
+    """a fresh function type's comptime arguments: the variables of its comptime parameters"""
+    return [("cv", i, p[1], p[2]) for i, p in enumerate(params) if p[0] == "cp" and p[3]]
+
+
+def expected(params, inputs, output, inst, comptime):
     """mirror of instantiate_partial(inst) per the reference substitution"""
     rem = remaining_params(params, inst)
     return {
@@ -284,7 +289,7 @@ def expected(params, inputs, output, inst):
         "idx": list(range(len(rem))),
         "inputs": [(f, n, msub(t, inst)) for f, n, t in inputs],
         "output": msub(output, inst),
-        "comptime": [msub(("cv", i, p[1], p[2]), inst) for i, p in enumerate(params) if p[0] == "cp" and p[3]],
+        "comptime": [msub(c, inst) for c in comptime],
     }
 
 
@@ -347,7 +352,7 @@ def evaluate(case, strict_cv_types=False, check_flag=True):
         return ("harness.build", f"could not build the function type: {e!r}")
 
     # --- the chain of partial steps, each compared with the reference
-    cur, cur_params, cur_inputs, cur_output = F, params, inputs, output
+    cur, cur_params, cur_inputs, cur_output, cur_ct = F, params, inputs, output, comptime_of(params)
     total = [None] * len(params)  # composite instantiation in terms of the original binder
     for k, inst in enumerate(steps):
         last = k == len(steps) - 1
@@ -360,27 +365,28 @@ def evaluate(case, strict_cv_types=False, check_flag=True):
             fr = [f for f in traceback.extract_tb(e.__traceback__) if "guppylang" in f.filename]
             where = f"{fr[-1].filename.split('/')[-1]}:{fr[-1].name}" if fr else "?"
             return (f"law.raises.{type(e).__name__}@{where}", f"step {k} {inst}: {e!r}")
-        exp = expected(cur_params, cur_inputs, cur_output, inst)
+        exp = expected(cur_params, cur_inputs, cur_output, inst, cur_ct)
         try:
             got = W.MF(nxt)
         except ValueError as e:
             return ("law.shape", f"step {k}: {e}")
+        cmp_exp = exp
         if not check_flag:
-            exp["params"] = [p[:3] if p[0] == "cp" else p for p in exp["params"]]
+            cmp_exp = dict(exp, params=[p[:3] if p[0] == "cp" else p for p in exp["params"]])
             got["params"] = [p[:3] if p[0] == "cp" else p for p in got["params"]]
-        d = first_diff(got, exp)
+        d = first_diff(got, cmp_exp)
         if d:
             comp = diff_component(d)
             # a stale type annotation on a bound const variable occurrence (see module
             # docstring of checks/c13.py) is reported separately
             if not strict_cv_types and comp in ("inputs", "output", "comptime") and \
-                    first_diff(strip_cv_types(got), strip_cv_types(exp)) is None:
+                    first_diff(strip_cv_types(got), strip_cv_types(cmp_exp)) is None:
                 case.setdefault("_notes", []).append("stale_cv_type")
             else:
                 which = "final" if last else "partial"
                 sub = ""
                 if comp == "params":
-                    gp, ep = got["params"], exp["params"]
+                    gp, ep = got["params"], cmp_exp["params"]
                     if len(gp) == len(ep) and all(g[:3] == e[:3] for g, e in zip(gp, ep)):
                         sub = ".from_comptime_arg"
                     elif len(gp) == len(ep) and all(g[:2] == e[:2] for g, e in zip(gp, ep)):
@@ -388,7 +394,7 @@ def evaluate(case, strict_cv_types=False, check_flag=True):
                 return (f"law.{which}.{comp}{sub}", f"step {k} inst={inst}: {d}")
         # fold this step into the composite
         total = compose(total, inst) if k else list(inst)
-        cur, cur_params, cur_inputs, cur_output = nxt, exp["params"], exp["inputs"], exp["output"]
+        cur, cur_params, cur_inputs, cur_output, cur_ct = nxt, exp["params"], exp["inputs"], exp["output"], exp["comptime"]
 
     # --- composition: one step with the composite instantiation
     try:
@@ -399,7 +405,7 @@ def evaluate(case, strict_cv_types=False, check_flag=True):
         if one != cur:
             d = first_diff(W.MF(cur), W.MF(one))
             return ("law.compose.neq", f"steps {steps} vs one step {total}: {d or 'objects differ (==) but mirrors agree'}")
-    exp1 = expected(params, inputs, output, total)
+    exp1 = expected(params, inputs, output, total, comptime_of(params))
     d = first_diff(W.MF(one), exp1)
     if d:
         if not strict_cv_types and first_diff(strip_cv_types(W.MF(one)), strip_cv_types(exp1)) is None:
